@@ -1,1 +1,728 @@
-fn main() {}
+//! SIM-D: allocator seam for secret material (C33, DESIGN.md section 8).
+//!
+//! The process allocator is owned by the simulator. `realloc` resolves the one
+//! environmental choice the property depends on adversarially (a growing buffer
+//! always moves, so the stale copy is freed through the scanning `dealloc`), and
+//! every freed block is scanned for every secret that is live in the run.
+use plonky2::field::types::{Field, PrimeField64};
+use qpz_core::evidence::{Counters, Evidence};
+use qpz_core::rng::{mix, Rng};
+use qpz_core::runner::{run_batch, BatchCfg};
+use qpz_core::{harness_error, Tier, EXIT_OK, EXIT_VIOLATION};
+use serde::{Deserialize, Serialize};
+use serde_json::json;
+use std::alloc::{GlobalAlloc, Layout, System};
+use std::cell::Cell;
+use std::collections::HashSet;
+use wormhole_circuit::block_header::header::DIGEST_LOGS_SIZE;
+use wormhole_circuit::inputs::{CircuitInputs, PrivateCircuitInputs};
+use wormhole_circuit::nullifier::{Nullifier, NULLIFIER_SALT};
+use wormhole_circuit::sensitive::{Secret, SensitiveFelts};
+use wormhole_circuit::unspendable_account::{UnspendableAccount, UNSPENDABLE_SALT};
+use wormhole_inputs::{BytesDigest, PublicCircuitInputs};
+use zk_circuits_common::circuit::F;
+use zk_circuits_common::utils::{bytes_to_digest, digest_to_bytes, string_to_felts, u64_to_felts};
+
+const MAX_SECRETS: usize = 6;
+const MAX_EXEMPT: usize = 24;
+const EXEMPT_LEN: usize = 128;
+
+/// Per-thread scanner state; fixed-size so the allocator hook never allocates.
+struct Scan {
+    secrets: [[u8; 32]; MAX_SECRETS],
+    n_secrets: usize,
+    exempt: [[u8; EXEMPT_LEN]; MAX_EXEMPT],
+    exempt_len: [usize; MAX_EXEMPT],
+    n_exempt: usize,
+    cur_op: usize,
+    /// first unexempted hit: (block size, secret index, op index, offset)
+    hit: Option<(usize, usize, usize, usize)>,
+    frees_scanned: u64,
+    bytes_scanned: u64,
+    exempt_hits: u64,
+    reallocs_moved: u64,
+}
+
+impl Scan {
+    const fn new() -> Scan {
+        Scan { secrets: [[0; 32]; MAX_SECRETS], n_secrets: 0, exempt: [[0; EXEMPT_LEN]; MAX_EXEMPT], exempt_len: [0; MAX_EXEMPT], n_exempt: 0, cur_op: 0, hit: None, frees_scanned: 0, bytes_scanned: 0, exempt_hits: 0, reallocs_moved: 0 }
+    }
+}
+
+thread_local! {
+    static SCAN: Cell<*mut Scan> = const { Cell::new(std::ptr::null_mut()) };
+}
+
+struct SimAlloc;
+
+unsafe fn scan_block(ptr: *mut u8, size: usize) {
+    let Ok(p) = SCAN.try_with(|c| c.get()) else { return };
+    if p.is_null() || size < 32 {
+        return;
+    }
+    let s = &mut *p;
+    s.frees_scanned += 1;
+    s.bytes_scanned += size as u64;
+    let block = core::slice::from_raw_parts(ptr, size);
+    for si in 0..s.n_secrets {
+        let pat = &s.secrets[si];
+        let first = pat[0];
+        let mut i = 0;
+        while i + 32 <= size {
+            if block[i] == first && &block[i..i + 32] == pat {
+                // the documented carve-out: the block is byte-for-byte an upstream pad10_to_rate image
+                let exempt = (0..s.n_exempt).any(|e| s.exempt_len[e] == size && &s.exempt[e][..size] == block);
+                if exempt {
+                    s.exempt_hits += 1;
+                } else if s.hit.is_none() {
+                    s.hit = Some((size, si, s.cur_op, i));
+                }
+                break;
+            }
+            i += 1;
+        }
+    }
+}
+
+unsafe impl GlobalAlloc for SimAlloc {
+    unsafe fn alloc(&self, layout: Layout) -> *mut u8 {
+        // While simulating, fresh blocks start zeroed: recycled memory may hold stale copies of the
+        // harness's own secret buffers (freed while scanning was off), and uninitialised capacity
+        // would carry them into blocks the code under test never wrote a secret to.
+        if SCAN.try_with(|c| !c.get().is_null()).unwrap_or(false) {
+            return System.alloc_zeroed(layout);
+        }
+        System.alloc(layout)
+    }
+    unsafe fn alloc_zeroed(&self, layout: Layout) -> *mut u8 {
+        System.alloc_zeroed(layout)
+    }
+    unsafe fn dealloc(&self, ptr: *mut u8, layout: Layout) {
+        scan_block(ptr, layout.size());
+        System.dealloc(ptr, layout)
+    }
+    unsafe fn realloc(&self, ptr: *mut u8, layout: Layout, new_size: usize) -> *mut u8 {
+        // Adversarial placement: growth (or shrink) always moves. The old block is released
+        // through the scanning dealloc; delegating to the system realloc would let libc free a
+        // moved block unseen.
+        let simulating = SCAN.try_with(|c| !c.get().is_null()).unwrap_or(false);
+        if !simulating {
+            return System.realloc(ptr, layout, new_size);
+        }
+        let new_layout = Layout::from_size_align_unchecked(new_size, layout.align());
+        let new = System.alloc_zeroed(new_layout);
+        if new.is_null() {
+            return new;
+        }
+        core::ptr::copy_nonoverlapping(ptr, new, layout.size().min(new_size));
+        if let Ok(p) = SCAN.try_with(|c| c.get()) {
+            if !p.is_null() {
+                (*p).reallocs_moved += 1;
+            }
+        }
+        self.dealloc(ptr, layout);
+        new
+    }
+}
+
+#[global_allocator]
+static ALLOC: SimAlloc = SimAlloc;
+
+// ------------------------------------------------------------------ workload
+
+#[derive(Clone, Debug, Serialize, Deserialize, PartialEq, Eq, Hash)]
+#[serde(rename_all = "snake_case")]
+enum Op {
+    /// Secret::new on a caller buffer (valid digest)
+    SecretNew { s: usize },
+    /// Secret::new on a buffer with an out-of-range limb derived from the secret
+    SecretNewInvalid { s: usize },
+    SecretFromDigest { s: usize },
+    SecretFromFelts { s: usize },
+    SecretTryFromArray { s: usize },
+    /// expose_* and equality on a live secret-bearing object
+    Expose { obj: usize },
+    NullifierNew { s: usize, tc: u64 },
+    NullifierFromPreimage { s: usize, tc: u64 },
+    NullifierFromInputs { s: usize, tc: u64 },
+    AccountNew { s: usize },
+    AccountFromSecret { s: usize },
+    AccountFromInputs { s: usize, tc: u64 },
+    InputsNew { s: usize, tc: u64 },
+    /// to_bytes of object `obj`; the scrubbing buffer joins the pool
+    ToBytes { obj: usize },
+    ToFelts { obj: usize },
+    /// from_bytes on a serialisation held in the pool (kind: 0 valid, 1 wrong length, 2 non-canonical secret limb, 3 truncated)
+    FromBytes { obj: usize, kind: u8 },
+    /// from_field_elements (kind: 0 valid, 1 wrong length, 2 oversized transfer-count limb)
+    FromFelts { obj: usize, kind: u8 },
+    /// move object `obj` into a Box (heap residency), keep it in the pool
+    BoxIt { obj: usize },
+    Drop { obj: usize },
+}
+
+/// Pool entries are small (tag + pointer): every secret-bearing value lives in its own
+/// exactly-sized heap block, so no stale stack bytes travel into the heap inside the padding of
+/// a large enum (that would be the harness's own leak, not the code's).
+enum Obj {
+    Secret(Box<Secret>),
+    Nullifier(Box<Nullifier>),
+    Account(Box<UnspendableAccount>),
+    Inputs(Box<CircuitInputs>),
+    Bytes(zeroize::Zeroizing<Vec<u8>>, bool),
+    Felts(SensitiveFelts, bool),
+}
+
+fn felts_le_bytes(f: &[F]) -> Vec<u8> {
+    f.iter().flat_map(|x| x.to_canonical_u64().to_le_bytes()).collect()
+}
+
+/// The two upstream `pad10_to_rate` images for (secret, transfer count).
+fn upstream_pads(secret: BytesDigest, tc: u64) -> [Vec<u8>; 2] {
+    let sf = bytes_to_digest(secret);
+    let mut a: Vec<F> = string_to_felts(NULLIFIER_SALT).unwrap();
+    a.extend(sf);
+    a.extend(u64_to_felts(tc));
+    a.push(F::ONE);
+    a.resize(16, F::ZERO);
+    let mut b: Vec<F> = string_to_felts(UNSPENDABLE_SALT).unwrap();
+    b.extend(sf);
+    b.push(F::ONE);
+    b.resize(8, F::ZERO);
+    [felts_le_bytes(&a), felts_le_bytes(&b)]
+}
+
+fn make_inputs(secret: BytesDigest, tc: u64) -> CircuitInputs {
+    let d = |b: u8| BytesDigest::try_from([b; 32]).unwrap();
+    CircuitInputs {
+        private: PrivateCircuitInputs {
+            secret: Secret::from(secret),
+            transfer_count: tc,
+            unspendable_account: d(9),
+            parent_hash: d(5),
+            state_root: d(3),
+            extrinsics_root: d(4),
+            digest: [0xEE; DIGEST_LOGS_SIZE],
+            input_amount: 1000,
+            zk_tree_root: [0u8; 32],
+            zk_merkle_siblings: vec![[[7u8; 32]; 3]; 2],
+            zk_merkle_positions: vec![1, 2],
+        },
+        public: PublicCircuitInputs { asset_id: 0, output_amount_1: 900, output_amount_2: 99, volume_fee_bps: 10, nullifier: d(1), block_hash: d(0), exit_account_1: d(2), exit_account_2: d(3), block_number: 1 },
+    }
+}
+
+#[derive(Clone, Debug, Serialize, Deserialize)]
+struct Sequence {
+    secrets: Vec<[u8; 32]>,
+    tcs: Vec<u64>,
+    ops: Vec<Op>,
+}
+
+fn random_secret(rng: &mut Rng, structured: bool) -> [u8; 32] {
+    if structured {
+        match rng.below(3) {
+            0 => {
+                // limbs p-1
+                let mut b = [0u8; 32];
+                for l in 0..4 {
+                    b[l * 8..l * 8 + 8].copy_from_slice(&0xFFFF_FFFF_0000_0000u64.to_le_bytes());
+                }
+                b
+            }
+            1 => {
+                // one repeated (ASCII) byte
+                [0x40 + rng.below(0x3f) as u8; 32]
+            }
+            _ => {
+                // mostly-zero limbs with one marker byte each
+                let mut b = [0u8; 32];
+                for l in 0..4 {
+                    b[l * 8 + (rng.below(7) as usize)] = 1 + rng.below(200) as u8;
+                }
+                b
+            }
+        }
+    } else {
+        loop {
+            let mut b = [0u8; 32];
+            rng.fill(&mut b);
+            for l in 0..4 {
+                b[l * 8 + 7] &= 0x7f;
+            }
+            if b.iter().filter(|x| **x == 0).count() < 4 {
+                return b;
+            }
+        }
+    }
+}
+
+fn random_sequence(rng: &mut Rng) -> Sequence {
+    let ns = rng.range(1, 3) as usize;
+    let structured = rng.chance(1, 5);
+    let secrets: Vec<[u8; 32]> = (0..ns).map(|_| random_secret(rng, structured)).collect();
+    let tcs: Vec<u64> = (0..2).map(|_| *rng.pick(&[0u64, 1, 42, u32::MAX as u64, u64::MAX, 1 << 40])).collect();
+    let n = rng.range(5, 60) as usize;
+    let mut ops = vec![];
+    for _ in 0..n {
+        let s = rng.usize(ns);
+        let tc = tcs[rng.usize(tcs.len())];
+        let obj = rng.usize(12);
+        let op = match rng.below(26) {
+            0 => Op::SecretNew { s },
+            1 => Op::SecretNewInvalid { s },
+            2 => Op::SecretFromDigest { s },
+            3 => Op::SecretFromFelts { s },
+            4 => Op::SecretTryFromArray { s },
+            5 => Op::Expose { obj },
+            6 => Op::NullifierNew { s, tc },
+            7 | 8 => Op::NullifierFromPreimage { s, tc },
+            9 => Op::NullifierFromInputs { s, tc },
+            10 => Op::AccountNew { s },
+            11 | 12 => Op::AccountFromSecret { s },
+            13 => Op::AccountFromInputs { s, tc },
+            14 => Op::InputsNew { s, tc },
+            15 | 16 => Op::ToBytes { obj },
+            17 | 18 => Op::ToFelts { obj },
+            19 | 20 => Op::FromBytes { obj, kind: rng.below(4) as u8 },
+            21 | 22 => Op::FromFelts { obj, kind: rng.below(3) as u8 },
+            23 => Op::BoxIt { obj },
+            _ => Op::Drop { obj },
+        };
+        ops.push(op);
+    }
+    Sequence { secrets, tcs, ops }
+}
+
+#[derive(Clone, Debug, Default)]
+struct RunOut {
+    findings: Vec<(String, String)>,
+    probes: Counters,
+    ops_run: usize,
+    history: u64,
+    error_paths: u64,
+}
+
+/// Execute a sequence with the scanner armed for `scan_for` (normally the sequence's own
+/// secrets; a dry scan uses another sequence's secrets to rule out benign occurrences).
+fn execute(seq: &Sequence, scan_for: &[[u8; 32]], real_secrets: &[[u8; 32]], canary: bool) -> (RunOut, Option<(usize, usize, usize, usize)>, bool) {
+    let mut out = RunOut::default();
+    let mut scan = Box::new(Scan::new());
+    for (i, s) in scan_for.iter().take(MAX_SECRETS).enumerate() {
+        scan.secrets[i] = *s;
+        scan.n_secrets = i + 1;
+    }
+    // exemptions for every (secret, transfer count) in use (computed before scanning starts)
+    for s in scan_for {
+        if let Ok(d) = BytesDigest::try_from(*s) {
+            for tc in &seq.tcs {
+                for pad in upstream_pads(d, *tc) {
+                    if scan.n_exempt < MAX_EXEMPT && pad.len() <= EXEMPT_LEN {
+                        let e = scan.n_exempt;
+                        scan.exempt[e][..pad.len()].copy_from_slice(&pad);
+                        scan.exempt_len[e] = pad.len();
+                        scan.n_exempt += 1;
+                    }
+                }
+            }
+        }
+    }
+    let digests: Vec<BytesDigest> = real_secrets.iter().map(|s| BytesDigest::try_from(*s).expect("secrets are canonical")).collect();
+    // every object lives in its own heap block from creation; the pool holds only pointers, so the
+    // harness itself never moves a secret-bearing value out of a heap slot (a move leaves stale bytes)
+    // pool entries are single pointers (fully initialised words): a pool block can never carry 32
+    // contiguous stale stack bytes; each `Obj` block is 32 bytes with initialised tag and pointer
+    let scan_ptr: *mut Scan = &mut *scan;
+    SCAN.with(|c| c.set(scan_ptr));
+    // allocated only now, while simulating, so its capacity starts zeroed (see `alloc`)
+    let mut pool: Vec<Option<Box<Obj>>> = Vec::with_capacity(64);
+
+    let mut canary_caught = !canary;
+    if canary {
+        // built-in canary: the harness itself frees a buffer holding the first scanned secret
+        let v: Vec<u8> = scan_for[0].to_vec();
+        drop(v);
+        let s = unsafe { &mut *scan_ptr };
+        if s.hit.is_some() {
+            canary_caught = true;
+            s.hit = None;
+        }
+    }
+
+    for (oi, op) in seq.ops.iter().enumerate() {
+        unsafe { (*scan_ptr).cur_op = oi };
+        out.ops_run += 1;
+        let pick = |pool: &Vec<Option<Box<Obj>>>, obj: usize| -> Option<usize> {
+            if pool.is_empty() { None } else { let i = obj % pool.len(); if pool[i].is_some() { Some(i) } else { None } }
+        };
+        let mut put = |pool: &mut Vec<Option<Box<Obj>>>, o: Obj| {
+            if pool.len() < 60 {
+                pool.push(Some(Box::new(o)));
+            }
+        };
+        match op {
+            Op::SecretNew { s } => {
+                let mut buf = real_secrets[*s];
+                let r = Secret::new(&mut buf);
+                if buf != [0u8; 32] {
+                    out.findings.push(("scrub:caller-buffer-not-zeroed".into(), format!("op {oi}: Secret::new returned {} and left the caller's buffer non-zero", if r.is_ok() { "Ok" } else { "Err" })));
+                }
+                if let Ok(sec) = r {
+                    put(&mut pool, Obj::Secret(Box::new(sec)));
+                }
+            }
+            Op::SecretNewInvalid { s } => {
+                let mut buf = real_secrets[*s];
+                // make the last limb >= p, the rest still carries secret bytes
+                buf[24..32].copy_from_slice(&u64::MAX.to_le_bytes());
+                let r = Secret::new(&mut buf);
+                out.error_paths += 1;
+                if r.is_ok() {
+                    out.probes.inc("invalid_secret_accepted");
+                }
+                if buf != [0u8; 32] {
+                    out.findings.push(("scrub:caller-buffer-not-zeroed".into(), format!("op {oi}: Secret::new on an invalid digest left the caller's buffer non-zero")));
+                }
+            }
+            Op::SecretFromDigest { s } => put(&mut pool, Obj::Secret(Box::new(Secret::from(digests[*s])))),
+            Op::SecretFromFelts { s } => put(&mut pool, Obj::Secret(Box::new(Secret::from(bytes_to_digest(digests[*s]))))),
+            Op::SecretTryFromArray { s } => {
+                if let Ok(sec) = Secret::try_from(real_secrets[*s]) {
+                    put(&mut pool, Obj::Secret(Box::new(sec)));
+                }
+            }
+            Op::Expose { obj } => {
+                if let Some(i) = pick(&pool, *obj) {
+                    match &**pool[i].as_ref().unwrap() {
+                        Obj::Secret(s) => {
+                            let d = s.expose_digest();
+                            let f = s.expose_felts();
+                            let again = Secret::from(d);
+                            let _ = again == **s;
+                            let _ = digest_to_bytes(f);
+                        }
+                        Obj::Nullifier(n) => {
+                            let _ = n.secret.expose_felts();
+                        }
+                        Obj::Account(a) => {
+                            let _ = a.secret.expose_digest();
+                        }
+                        Obj::Inputs(c) => {
+                            let _ = c.private.secret.expose_digest();
+                            let _ = format!("{:?}", c);
+                        }
+                        _ => {}
+                    }
+                }
+            }
+            Op::NullifierNew { s, tc } => put(&mut pool, Obj::Nullifier(Box::new(Nullifier::new(BytesDigest::try_from([0x11u8; 32]).unwrap(), digests[*s], *tc)))),
+            Op::NullifierFromPreimage { s, tc } => put(&mut pool, Obj::Nullifier(Box::new(Nullifier::from_preimage(digests[*s], *tc)))),
+            Op::NullifierFromInputs { s, tc } => {
+                let inputs = make_inputs(digests[*s], *tc);
+                put(&mut pool, Obj::Nullifier(Box::new(Nullifier::from(&inputs))));
+            }
+            Op::AccountNew { s } => put(&mut pool, Obj::Account(Box::new(UnspendableAccount::new(BytesDigest::try_from([0x12u8; 32]).unwrap(), digests[*s])))),
+            Op::AccountFromSecret { s } => put(&mut pool, Obj::Account(Box::new(UnspendableAccount::from_secret(digests[*s])))),
+            Op::AccountFromInputs { s, tc } => {
+                let inputs = make_inputs(digests[*s], *tc);
+                put(&mut pool, Obj::Account(Box::new(UnspendableAccount::from(&inputs))));
+            }
+            Op::InputsNew { s, tc } => put(&mut pool, Obj::Inputs(Box::new(make_inputs(digests[*s], *tc)))),
+            Op::ToBytes { obj } => {
+                if let Some(i) = pick(&pool, *obj) {
+                    let b = match &**pool[i].as_ref().unwrap() {
+                        Obj::Nullifier(n) => Some((n.to_bytes(), true)),
+                        Obj::Account(a) => Some((a.to_bytes(), false)),
+                        _ => None,
+                    };
+                    if let Some((b, is_n)) = b {
+                        put(&mut pool, Obj::Bytes(b, is_n));
+                    }
+                }
+            }
+            Op::ToFelts { obj } => {
+                if let Some(i) = pick(&pool, *obj) {
+                    let f = match &**pool[i].as_ref().unwrap() {
+                        Obj::Nullifier(n) => Some((n.to_field_elements(), true)),
+                        Obj::Account(a) => Some((a.to_field_elements(), false)),
+                        _ => None,
+                    };
+                    if let Some((f, is_n)) = f {
+                        put(&mut pool, Obj::Felts(f, is_n));
+                    }
+                }
+            }
+            Op::FromBytes { obj, kind } => {
+                if let Some(i) = pick(&pool, *obj) {
+                    if let Obj::Bytes(b, is_n) = &**pool[i].as_ref().unwrap() {
+                        // the caller's working copy is itself a scrubbing buffer with full capacity
+                        let mut w = zeroize::Zeroizing::new(Vec::with_capacity(b.len() + 8));
+                        w.extend_from_slice(b);
+                        match kind {
+                            1 => w.push(0),
+                            2 => {
+                                // non-canonical limb inside the secret region (secret starts at byte 32)
+                                if w.len() >= 64 {
+                                    w[56..64].copy_from_slice(&u64::MAX.to_le_bytes());
+                                }
+                            }
+                            3 => {
+                                let l = w.len();
+                                w.truncate(l - 1);
+                            }
+                            _ => {}
+                        }
+                        if *kind != 0 {
+                            out.error_paths += 1;
+                        }
+                        if *is_n {
+                            match Nullifier::from_bytes(&w) {
+                                Ok(n) => put(&mut pool, Obj::Nullifier(Box::new(n))),
+                                Err(e) => drop(format!("{e:#}")),
+                            }
+                        } else {
+                            match UnspendableAccount::from_bytes(&w) {
+                                Ok(a) => put(&mut pool, Obj::Account(Box::new(a))),
+                                Err(e) => drop(format!("{e:#}")),
+                            }
+                        }
+                    }
+                }
+            }
+            Op::FromFelts { obj, kind } => {
+                if let Some(i) = pick(&pool, *obj) {
+                    if let Obj::Felts(f, is_n) = &**pool[i].as_ref().unwrap() {
+                        let mut v = Vec::with_capacity(f.len() + 2);
+                        v.extend_from_slice(f.as_slice());
+                        match kind {
+                            1 => v.push(F::ONE),
+                            2 => {
+                                let l = v.len();
+                                v[l - 1] = F::from_canonical_u64(1 << 40);
+                            }
+                            _ => {}
+                        }
+                        if *kind != 0 {
+                            out.error_paths += 1;
+                        }
+                        let w = SensitiveFelts::new(v);
+                        if *is_n {
+                            match Nullifier::from_field_elements(w.as_slice()) {
+                                Ok(n) => put(&mut pool, Obj::Nullifier(Box::new(n))),
+                                Err(e) => drop(format!("{e:#}")),
+                            }
+                        } else {
+                            match UnspendableAccount::from_field_elements(w.as_slice()) {
+                                Ok(a) => put(&mut pool, Obj::Account(Box::new(a))),
+                                Err(e) => drop(format!("{e:#}")),
+                            }
+                        }
+                    }
+                }
+            }
+            Op::BoxIt { obj } => {
+                // kept for replay-file compatibility: behaves as an expose on the object
+                let _ = pick(&pool, *obj);
+            }
+            Op::Drop { obj } => {
+                if let Some(i) = pick(&pool, *obj) {
+                    pool[i] = None;
+                }
+            }
+        }
+    }
+    // everything still alive is dropped in seeded (reverse-interleaved) order at the end
+    unsafe { (*scan_ptr).cur_op = seq.ops.len() };
+    let mut order: Vec<usize> = (0..pool.len()).collect();
+    order.reverse();
+    for (k, i) in order.iter().enumerate() {
+        if k % 2 == 0 {
+            pool[*i] = None;
+        }
+    }
+    drop(pool);
+    SCAN.with(|c| c.set(std::ptr::null_mut()));
+    let hit = scan.hit;
+    out.probes.add("frees_scanned", scan.frees_scanned);
+    out.probes.add("bytes_scanned", scan.bytes_scanned);
+    out.probes.add("frees_of_exempt_upstream_blocks", scan.exempt_hits);
+    out.probes.add("reallocs_moved", scan.reallocs_moved);
+    out.probes.add("error_paths_with_secret_in_scope", out.error_paths);
+    out.history = qpz_core::rng::hash_str(&serde_json::to_string(&seq.ops).unwrap());
+    (out, hit, canary_caught)
+}
+
+/// Full evaluation of one sequence: structured secrets are first dry-scanned
+/// (same operations, other secret) so a benign buffer can never raise an alarm.
+fn evaluate(seq: &Sequence, rng_for_dry: &mut Rng) -> RunOut {
+    // dry scan: run the same operations with different (random) secrets while scanning for
+    // the real ones; any occurrence is benign by construction
+    let dry_secrets: Vec<[u8; 32]> = seq.secrets.iter().map(|_| random_secret(rng_for_dry, false)).collect();
+    let (_, dry_hit, _) = execute(seq, &seq.secrets, &dry_secrets, false);
+    if dry_hit.is_some() {
+        let mut o = RunOut::default();
+        o.probes.inc("sequence_skipped_pattern_occurs_benignly");
+        return o;
+    }
+    let (mut out, hit, canary) = execute(seq, &seq.secrets, &seq.secrets, true);
+    if !canary {
+        harness_error("canary missed: the scanning allocator did not see a freed buffer holding the secret");
+    }
+    if let Some((size, si, op, off)) = hit {
+        let what = if op < seq.ops.len() { format!("{:?}", seq.ops[op]) } else { "final drops".to_string() };
+        out.findings.push(("scrub:secret-freed-unscrubbed".into(), format!("a {size}-byte heap block still holding secret #{si} (at offset {off}) was freed during op {op} ({what})")));
+    }
+    out
+}
+
+#[derive(Serialize, Deserialize)]
+struct ReplayFile {
+    property: String,
+    sim: String,
+    seed: u64,
+    run: u64,
+    class: String,
+    detail: String,
+    sequence: Sequence,
+}
+
+fn main() {
+    let args: Vec<String> = std::env::args().collect();
+    let mut tier_arg = None;
+    let mut replay: Option<String> = None;
+    let mut i = 1;
+    while i < args.len() {
+        match args[i].as_str() {
+            "--property" => i += 1,
+            "--tier" => { tier_arg = Some(args[i + 1].clone()); i += 1; }
+            "--replay" => { replay = Some(args[i + 1].clone()); i += 1; }
+            other => harness_error(&format!("unknown argument {other}")),
+        }
+        i += 1;
+    }
+    let seed = qpz_core::seed_from_env();
+    let tier = Tier::from_env_or(tier_arg.as_deref());
+    println!("VERIF_SEED={seed} property=C33 tier={} sim=alloc", tier.as_str());
+    let t0 = qpz_core::real_now_ns();
+
+    if let Some(path) = replay {
+        let rf: ReplayFile = serde_json::from_str(&std::fs::read_to_string(&path).unwrap_or_else(|e| harness_error(&format!("cannot read {path}: {e}")))).unwrap_or_else(|e| harness_error(&format!("bad replay file: {e}")));
+        let out = evaluate(&rf.sequence, &mut Rng::new(1));
+        for (c, d) in &out.findings {
+            println!("replayed: class={c} {d}");
+        }
+        if !out.findings.is_empty() {
+            println!("VIOLATION property=C33 replay={path}");
+            std::process::exit(EXIT_VIOLATION);
+        }
+        println!("replay: no violation on this tree");
+        std::process::exit(EXIT_OK);
+    }
+
+    let (max_runs, budget) = match tier {
+        Tier::Quick => (400_000u64, 0),
+        Tier::Thorough => (u64::MAX / 2, qpz_core::budget_s(600)),
+    };
+    let cfg = BatchCfg { first_run: 0, max_runs, budget_s: budget, workers: qpz_core::workers(), stop_on_failure: true };
+    let results = run_batch(
+        &cfg,
+        |_| (),
+        |_, run| {
+            let mut rng = Rng::new(mix(seed, 0x3300_0000_0000 + run));
+            let seq = random_sequence(&mut rng);
+            let out = evaluate(&seq, &mut rng);
+            (seq, out)
+        },
+        |(_, out)| !out.findings.is_empty(),
+    );
+    let mut probes = Counters::default();
+    let mut histories: HashSet<u64> = HashSet::new();
+    let mut nontrivial: HashSet<u64> = HashSet::new();
+    let mut ops = 0u64;
+    let mut first: Option<(u64, Sequence, String, String)> = None;
+    let mut samples = vec![];
+    for (run, (seq, out)) in &results {
+        probes.merge(&out.probes);
+        ops += out.ops_run as u64;
+        histories.insert(out.history);
+        if out.probes.get("frees_scanned") > 0 && (out.error_paths > 0 || out.probes.get("reallocs_moved") > 0 || out.probes.get("frees_of_exempt_upstream_blocks") > 0) {
+            nontrivial.insert(out.history);
+        }
+        if samples.len() < 2 && seq.ops.len() > 8 {
+            samples.push(json!({"run": run, "tcs": seq.tcs, "secrets": seq.secrets.len(), "ops": seq.ops.iter().take(12).collect::<Vec<_>>()}));
+        }
+        if first.is_none() {
+            if let Some((c, d)) = out.findings.first() {
+                first = Some((*run, seq.clone(), c.clone(), d.clone()));
+            }
+        }
+    }
+    let wall = (qpz_core::real_now_ns() - t0) as f64 / 1e9;
+    let mut exit = EXIT_OK;
+    let mut replay_path = String::new();
+    if let Some((run, seq, class, detail)) = first {
+        // minimise the operation sequence while the same class persists
+        let cls = class.clone();
+        let secrets = seq.secrets.clone();
+        let tcs = seq.tcs.clone();
+        let mut fails = |ops: &[Op]| {
+            let s = Sequence { secrets: secrets.clone(), tcs: tcs.clone(), ops: ops.to_vec() };
+            evaluate(&s, &mut Rng::new(1)).findings.iter().any(|(c, _)| *c == cls)
+        };
+        let (min_ops, _) = if fails(&seq.ops) { qpz_core::shrink::ddmin(seq.ops.clone(), &mut fails, 2000) } else { (seq.ops.clone(), 0) };
+        let minimal = Sequence { secrets: seq.secrets.clone(), tcs: seq.tcs.clone(), ops: min_ops };
+        let re = evaluate(&minimal, &mut Rng::new(1));
+        let (sequence, detail) = match re.findings.iter().find(|(c, _)| *c == class) {
+            Some((_, d)) => (minimal, d.clone()),
+            None => (seq, detail),
+        };
+        let rf = ReplayFile { property: "C33".into(), sim: "alloc".into(), seed, run, class: class.clone(), detail: detail.clone(), sequence };
+        replay_path = format!("{}/C33-{}.json", qpz_core::replay_dir(), qpz_core::rng::hash_str(&serde_json::to_string(&rf.sequence).unwrap()));
+        std::fs::write(&replay_path, serde_json::to_string_pretty(&rf).unwrap()).unwrap();
+        println!("violation class={class} run={run} ops={}: {detail}", rf.sequence.ops.len());
+        println!("VIOLATION property=C33 replay={replay_path}");
+        exit = EXIT_VIOLATION;
+    }
+    if exit == EXIT_OK && probes.get("frees_of_exempt_upstream_blocks") == 0 {
+        harness_error("reach probe 'frees_of_exempt_upstream_blocks' is zero: the scanner never saw the documented upstream pad buffer, so it may not be seeing secrets at all");
+    }
+    let n = results.len() as u64;
+    let mut extra = serde_json::Map::new();
+    extra.insert("sequences".into(), json!(n));
+    extra.insert("operations".into(), json!(ops));
+    extra.insert("runs_per_hour".into(), json!((n as f64 / wall * 3600.0).round()));
+    extra.insert("reach_probes".into(), probes.to_json());
+    extra.insert("faults_fired".into(), json!({"realloc_forced_to_move": probes.get("reallocs_moved"), "error_paths_with_secret_in_scope": probes.get("error_paths_with_secret_in_scope")}));
+    extra.insert("simulated_time".into(), json!("not applicable: no timers"));
+    extra.insert("components".into(), json!({
+        "real": ["sensitive.rs (Secret, SensitiveFelts)", "nullifier.rs and unspendable_account.rs constructors, hashing, (de)serialisation", "CircuitInputs / PrivateCircuitInputs", "upstream Poseidon2 hashing", "zeroize"],
+        "stub": [],
+        "simulated": ["the process allocator: realloc placement decided adversarially (always moves), every freed block scanned"]
+    }));
+    if !replay_path.is_empty() {
+        extra.insert("replay".into(), json!(replay_path));
+    }
+    let ev = Evidence {
+        property_id: "C33".into(),
+        tier: tier.as_str().into(),
+        seed,
+        level: "exploration".into(),
+        evaluations: n,
+        distinct_nontrivial: nontrivial.len() as u64,
+        rule: "one evaluation = one seeded sequence of 5-60 secret-handling calls over a pool of live objects dropped in seeded order, executed under the scanning allocator; distinct = distinct operation sequence; non-trivial = blocks were scanned and the sequence took an error path with a secret in scope, forced a realloc to move, or freed an exempt upstream block".into(),
+        samples,
+        exhaustive: None,
+        extra,
+        assumptions: vec![
+            "stack copies and copies inside plonky2's PartialWitness are excluded by the property and by sensitive.rs".into(),
+            "the single carve-out is reproduced exactly: a freed block that is byte-for-byte an upstream pad10_to_rate image for a (secret, transfer count) pair in use".into(),
+            "caller-induced moves of heap containers holding secret-bearing objects (e.g. a growing Vec<Nullifier>) are caller behaviour, not part of the secret-handling APIs, and are not generated".into(),
+            "little-endian target: the felt encoding has the same memory image as the 32-byte form".into(),
+        ],
+        wall_s: wall,
+        violations: if exit == EXIT_OK { 0 } else { 1 },
+    };
+    ev.write(&qpz_core::evidence_path("C33")).unwrap_or_else(|e| harness_error(&format!("cannot write evidence: {e}")));
+    println!("C33: sequences={n} ops={ops} nontrivial={} frees_scanned={} wall={wall:.1}s", nontrivial.len(), probes.get("frees_scanned"));
+    std::process::exit(exit);
+}
